@@ -478,12 +478,12 @@ Fixpoint remove_first_Z (x : Z) (l : list Z) : list Z :=
 Fixpoint remove_id (id : nat) (ds : list dentry) : list dentry :=
   match ds with [] => [] | e :: ds' => if Nat.eqb (d_id e) id then ds' else e :: remove_id id ds' end.
 
-Definition pop (c : chan) : chan :=
-  match ctx c with
-  | [] => c
-  | FPrompt prev :: rest => with_ctx (with_prompt c prev) rest
-  | FDeath id :: rest => with_ctx (with_deaths c (remove_id id (deaths c))) rest
-  | FStream sid prevlp :: rest =>
+(* leaving one context manager: frame f has already been removed from the stack `rest` *)
+Definition exit_frame (f : frame) (rest : list frame) (c : chan) : chan :=
+  match f with
+  | FPrompt prev => with_ctx (with_prompt c prev) rest
+  | FDeath id => with_ctx (with_deaths c (remove_id id (deaths c))) rest
+  | FStream sid prevlp =>
       let l := lgs c in
       let sb := if negb (log_prompt l) then
                   match prompt c with
@@ -493,6 +493,24 @@ Definition pop (c : chan) : chan :=
                 else streambuf l in
       with_ctx (with_lgs c (mkLg (remove_first_Z sid (streams l)) sb prevlp (sout l) (fwdb l))) rest
   end.
+
+Definition pop (c : chan) : chan :=
+  match ctx c with
+  | [] => c
+  | f :: rest => exit_frame f rest c
+  end.
+
+(* leaving the k-th innermost context out of order (k = 0 is pop) *)
+Definition pop_at (k : nat) (c : chan) : chan :=
+  match nth_error (ctx c) k with
+  | None => c
+  | Some f => exit_frame f (firstn k (ctx c) ++ skipn (S k) (ctx c)) c
+  end.
+
+(* add_death_string(): a registration that is never undone *)
+Definition add_death (s : sstr) (exc : Z) (c : chan) : chan :=
+  let e := mkD (nextid c) s exc [] in
+  mkChan (io c) (prompt c) (e :: deaths c) (lgs c) (blacklist c) (slow c) (ctx c) (S (nextid c)).
 
 (* keep tactics from unfolding the nat literals 4096 / 512 (vm_compute is not affected) *)
 Global Opaque READ_CHUNK_SIZE SEND_SLICE.
